@@ -148,6 +148,15 @@ CHECKS = {
           "comparing its table, shot count and echo line count with the extracted model.", "DESIGN.md §6 C17"),
    note="Trusted: Coq kernel; extraction; glue; hook H2 (draw file). --echo=none read as documented (always suppress).",
    technique="Coq proof (finite-map/table algebra, Q arithmetic) + extraction-based correspondence through the real CLI"),
+ "C18": dict(
+   level=("proof", "Coq theorems (axiom-free): on the reference interpreter every shot of an N-shot run is the fresh run (a run is a function of the program from "
+          "the empty state); a constant expression evaluates to the same value or error in every state and changes nothing, so the array size the implementation "
+          "caches in the shared syntax tree is the same in every shot. The implementation is decided directly: each generated program (static counters, generic "
+          "specialisations, const-sized arrays, float formatting, objects owning qubits, resets and releases with injected draws) is executed 3 times on one "
+          "parsed and analysed tree, twice after a second analysis, and as fresh processes; per-shot output, consumed draws and outcomes, final amplitudes, "
+          "measurement flags, free list, QASM and tracked counts must coincide, and fresh runs agree with the interpreter.", "DESIGN.md §6 C18"),
+   note="Trusted: Coq kernel; extraction; glue; hooks H1-H3; drv_prog's shot loop mirrors cli.cpp (fresh RuntimeEvaluator per shot).",
+   technique="Coq proof (state independence of constant expressions) + metamorphic N-shot vs fresh-run comparison on the implementation"),
  "C19": dict(
    level=("proof", "Coq theorems (axiom-free) on a model of module_loader.cpp over an abstract file system, for every tree, search-path list, "
           "working directory and entry: a successful load lists each module once, places every imported module (symbol or wildcard, importer "
